@@ -403,7 +403,7 @@ Proof.
   - destruct dh; simpl;
       try (match goal with |- match backend ?p ?d with _ => _ end =>
              specialize (NP p d); destruct (backend p d) eqn:B; [exact I | right; eauto | congruence] end).
-    left; reflexivity.
+    all: left; reflexivity.
   - left. eapply decode_err; eauto.
   - exact (decode_no_panic _ _ D).
 Qed.
